@@ -43,6 +43,24 @@ CHECKS.update({
             "DESIGN.md §2 C13"),
 })
 
+CHECKS.update({
+    "C09": ("exploration",
+            "reference-model monitor: random leaf sequences x random bracketings x all 24 orders of str/bytes/to_bits/int, on fresh copies, on one tree and on one value object; before/after snapshots of trees and terminal value objects",
+            "Associativity (bracketing independence), agreement of the three views with an independent reference serialisation (vf/ref/treeval.py), order independence and absence of side effects are observed on every generated (leaf sequence, bracketing).",
+            "int() only for order/bracketing independence; unaligned sequences only for 'same outcome for every bracketing, no mutation'.",
+            "DESIGN.md §2 C09"),
+    "C10": ("exploration",
+            "model-based history checking: random histories of public tree operations and evolutionary operators on real grammars; invariant walker (size/hash/==/parent vs from-scratch rebuild) after every step over all live trees; before/after dumps and in-place perturbation of outputs for aliasing; retained solutions re-dumped during real search runs",
+            "Every step of every history is followed by a full walk of all trees the caller still holds. Operation and operator counts are in the evidence.",
+            "ParserDerivationTree internals are not walked; hash collisions only where they occur.",
+            "DESIGN.md §2 C10"),
+    "C12": ("exploration",
+            "history checker: random histories of parse-type requests (first tree, full / abandoned forests, modes, start symbols, include_controlflow, API parse, interleaved fuzz runs, in-place edits of returned trees) on one spec object, each result compared with the same request on a fresh spec object",
+            "Results are compared as sequences of canonical dumps (repetition tags up to renaming of iteration numbers).",
+            "A fresh object built from the same text is the reference.",
+            "DESIGN.md §2 C12"),
+})
+
 NOT_YET = {}
 
 
